@@ -4,5 +4,9 @@ claim("C09", "SSA phi-closure monotonicity of the exclusion accumulator + domina
       "Decides four structural necessary conditions of @skip/@include on every path of the directive evaluator and the selection walker: accumulator monotone (order independence), polarity per arm, every resolver-reaching dispatch gated by the evaluator's result for the same selection, operation variable map with defaults used. These are exactly the clauses the 2x6x6 combination space depends on; the directive semantics has no value-dependent part beyond them.",
       TB)
 
-for p in ["C01","C02","C03","C04","C05","C06","C07","C08","C10","C11","C12","C13","C14","C15","C16","C17","C18","C19","C20"]:
+claim("C06", "path-prefix typestate (forward dataflow over the SSA CFG counting Errors.in applications per error source and kind) + who-may-prefix table + AST structure of the error adder",
+      "Decides on every CFG path of the field resolver, list resolver and error adder that each error receives the response-key prefix exactly once per field level and the list-index prefix exactly once per element with the SSA value that indexed the source, that grouped errors are flattened member by member and Extensions carried, and that no other kind of path segment is added anywhere. Four genuine defects are listed as known findings (value kept next to its error in three resolver arms; 'fragment at L:C' path segment), all pinned by existing tests.",
+      TB)
+
+for p in ["C01","C02","C03","C04","C05","C07","C08","C10","C11","C12","C13","C14","C15","C16","C17","C18","C19","C20"]:
     na(p, "rules designed (DESIGN.md section 4) but not yet implemented in the checker at this commit; will be claimed once its rule set runs clean")
